@@ -25,6 +25,8 @@ func init() {
 var groupBySites = []struct{ rel, fn string }{{"execution/nodes", "(*SimpleGroupBy).Run"}, {"execution/nodes", "(*CustomTriggerGroupBy).Run"}}
 
 func runC03(c *core.Ctx) {
+	c.Rule("PARSECOV", "no clause the grammar accepts is silently ignored by the parser")
+	checkParserCoverage(c, "PARSECOV")
 	p := c.Prog
 	ids := typeIDs(p)
 	c.Rule("NULLSKIP", "NULL aggregate inputs are skipped; set size follows non-NULL inputs")
